@@ -20,7 +20,7 @@ ID = 'C13'
 CASES = {'quick': 30, 'thorough': 500}
 SHARDS = {'quick': 8, 'thorough': 16}
 HANG_IS_VIOLATION = True
-CASE_TIMEOUT = 60
+CASE_TIMEOUT = 20
 RULE = ('Specs from the scheduler generator (1..3 processes with different '
         'timesteps and condition scripts, 0..2 steps, chunked forced/unforced '
         'calls) and from the structural-history generator (compartments with '
@@ -186,7 +186,7 @@ def run_once(spec, parallel, res):
     ctx = kit.Context(t0=spec.get('t0', 0), budget=20000)
     out = {}
     engine = None
-    before = w = None
+    before = w = handles = pp = None
     try:
         if spec['kind'] == 'sched':
             engine = Engine(**build_sched(spec, ctx, parallel))
@@ -208,15 +208,12 @@ def run_once(spec, parallel, res):
             engine = Engine(**struct.build(s2, ctx, parallel_names=names))
             ctx.engine = engine
             n = len(spec['ticks'])
-            for t in range(n + 1):
+            for t, c in enumerate(spec.get('chunks') or [1] * (n + 1)):
                 before = workers_of(engine) if parallel else []
-                last = t == n
-                if last and spec['shutdown'] == 'end_pending':
-                    engine.run_for(1.0, force_complete=False)
-                elif spec['shutdown'] == 'end_pending':
-                    engine.run_for(1.0, force_complete=False)
+                if spec['shutdown'] == 'end_pending':
+                    engine.run_for(float(c), force_complete=False)
                 else:
-                    engine.update(1.0)
+                    engine.update(float(c))
                 if parallel:
                     still = {id(w) for w in workers_of(engine)}
                     for w in before:
@@ -236,20 +233,70 @@ def run_once(spec, parallel, res):
             'flow': norm(describe_parts(engine.flow)),
             'topology': norm(describe_parts(engine.topology))}
         if parallel:
+            check_wrappers(engine, res)
+            handles = published_wrappers(engine)
             shutdown(spec, engine, res)
+            if spec['shutdown'] != 'never':
+                # every worker the engine knows was told to stop and reaped
+                for pp in handles:
+                    if alive(pp):
+                        pp.multiprocess.join(2.0)
+                    if alive(pp):
+                        res.fail('worker.not_ended', 'Engine.end() returned but '
+                                 'the worker of %s is still alive' % pp.name,
+                                 'engine.py:end')
+                        break
+            handles = pp = None
             engine = None
     finally:
         ctx.close()
         if engine is not None and parallel:
-            try:
-                engine.end()
-            except Exception:
-                pass
-        engine = before = w = None
+            # an exception (or the watchdog) got us here: do not risk a
+            # second hang in Engine.end(), stop the workers directly
+            kill_children()
+        engine = before = w = handles = pp = None
         if parallel:
             gc.collect()        # the dropped engine's cycles (plan 'never')
             reap(res, report=not res.violations and 'rows' in out)
     return out
+
+
+def published_wrappers(engine):
+    from vivarium.core.process import ParallelProcess
+    out = []
+
+    def walk(x):
+        if isinstance(x, dict):
+            for v in x.values():
+                walk(v)
+        elif isinstance(x, ParallelProcess):
+            out.append(x)
+    walk(engine.processes)
+    walk(engine.steps)
+    return out
+
+
+def check_wrappers(engine, res):
+    """The hierarchy holds the very ParallelProcess wrappers the engine
+    publishes (also for processes added by structural updates)."""
+    from vivarium.core.process import Process, ParallelProcess
+
+    def walk(pub, store, path):
+        if isinstance(pub, dict):
+            for k, v in pub.items():
+                child = store.inner.get(k) if store is not None else None
+                walk(v, child, path + (k,))
+        elif isinstance(pub, Process):
+            held = store.value if store is not None else None
+            if held is not pub:
+                res.fail('wrapper.mismatch', 'engine publishes %r at %r but the '
+                         'hierarchy holds %r' % (pub, path, held),
+                         'engine.py:apply_update')
+            elif pub.parallel and not isinstance(pub, ParallelProcess):
+                res.fail('wrapper.missing', 'parallel process at %r is not '
+                         'wrapped' % (path,), 'engine.py:apply_update')
+    walk(engine.processes, engine.state, ())
+    walk(engine.steps, engine.state, ())
 
 
 def shutdown(spec, engine, res):
@@ -349,13 +396,17 @@ def classify(spec, res):
     res.nontrivial = nt
 
 
-def shard_teardown():
+def kill_children():
     for k in multiprocessing.active_children():
         try:
             k.terminate()
             k.join(1.0)
         except Exception:
             pass
+
+
+def shard_teardown():
+    kill_children()
 
 
 SIGNATURES = {}
